@@ -145,7 +145,13 @@ func factsExtend(pg *term.Term, pf *facts, g *term.Term) *facts {
 	return f
 }
 
+// globalConj are facts that hold on every path (ranges of witness variables).
+var globalConj []*term.Term
+
 func newFacts(parent *facts, conj []*term.Term, all []*term.Term) *facts {
+	if parent == nil && len(globalConj) > 0 {
+		conj = append(append([]*term.Term(nil), globalConj...), conj...)
+	}
 	f := &facts{parent: parent, r: map[int]rng{}, terms: map[int]*term.Term{}, memo: map[int]rng{}, bm: map[int]int8{}, vals: map[int][]uint64{}, conj: all}
 	if parent != nil {
 		f.depth = parent.depth + 1
@@ -358,6 +364,28 @@ func newFacts(parent *facts, conj []*term.Term, all []*term.Term) *facts {
 			}
 		}
 	}
+	// disequalities trim a range at its ends (second pass: the ranges are known now)
+	for _, c := range conj {
+		if c.Op != term.ONot || c.Args[0].Op != term.OEq {
+			continue
+		}
+		a, b := c.Args[0].Args[0], c.Args[0].Args[1]
+		if a.IsConst() {
+			a, b = b, a
+		}
+		if !b.IsConst() || a.Sort.K != term.KBV || a.W() > 64 {
+			continue
+		}
+		r := f.rangeOf(a)
+		delete(f.memo, a.ID)
+		switch {
+		case r.lo == r.hi:
+		case b.Val == r.lo:
+			tight(a, r.lo+1, r.hi)
+		case b.Val == r.hi:
+			tight(a, r.lo, r.hi-1)
+		}
+	}
 	for id, s := range f.sb {
 		if s.lo >= 0 && s.hi >= s.lo {
 			cur, ok := f.getR(id)
@@ -560,6 +588,37 @@ func (f *facts) rangeOf(t *term.Term) rng {
 	return r
 }
 
+// eqConst decides t == k for a term built from nested if-then-else.
+func (f *facts) eqConst(t *term.Term, k uint64, depth int) int8 {
+	if t.Op == term.OIte && depth < 24 {
+		switch f.decide(t.Args[0]) {
+		case 1:
+			return f.eqConst(t.Args[1], k, depth+1)
+		case 0:
+			return f.eqConst(t.Args[2], k, depth+1)
+		}
+		a, b := f.eqConst(t.Args[1], k, depth+1), f.eqConst(t.Args[2], k, depth+1)
+		if a == b {
+			return a
+		}
+		return -1
+	}
+	if t.IsConst() {
+		if t.Val == k {
+			return 1
+		}
+		return 0
+	}
+	r := f.rangeOf(t)
+	if k < r.lo || k > r.hi {
+		return 0
+	}
+	if r.lo == r.hi {
+		return 1
+	}
+	return -1
+}
+
 // decide returns 1 (certainly true), 0 (certainly false) or -1.
 func (f *facts) decide(t *term.Term) int8 {
 	if t.IsConst() {
@@ -629,6 +688,13 @@ func (f *facts) decide(t *term.Term) int8 {
 			x, k := t.Args[0], t.Args[1]
 			if x.IsConst() {
 				x, k = k, x
+			}
+			if k.IsConst() && x.Op == term.OIte {
+				// equality with a constant distributes over if-then-else (each branch may be decidable on its own)
+				if d := f.eqConst(x, k.Val, 0); d >= 0 {
+					r = d
+					break
+				}
 			}
 			if k.IsConst() {
 				if set, ok := f.getVals(x.ID); ok {
